@@ -9,10 +9,10 @@ use super::endpoints::*;
 use super::nodes::Deploy;
 use crate::prng::Rng;
 
-pub const SIZES: [usize; 12] = [0, 1, 2, 17, 1024, 8191, 8192, 8193, 20000, 65536, 300_000, 1 << 20];
+pub const SIZES: [usize; 13] = [0, 1, 2, 17, 1024, 8191, 8192, 8193, 20000, 65536, 300_000, 1 << 20, 4 << 20];
 
 pub fn random_spec(rng: &mut Rng, id: u64, kinds: &[LocalKind], big: bool) -> FlowSpec {
-    let cap = if big { SIZES.len() } else { SIZES.len() - 2 };
+    let cap = if big { SIZES.len() } else { SIZES.len() - 3 };
     let c2s = SIZES[rng.below(cap as u64) as usize];
     let s2c = SIZES[rng.below(cap as u64) as usize];
     let ws = |rng: &mut Rng, total: usize| -> usize {
